@@ -179,8 +179,8 @@ extern "C" void h_words(void) {
    World* w = new World; auto& lx = w->lx;
    Word<2> a, b; a.make(1); b.make(1); vp_not_reserved_range(a.buf[0]); vp_not_reserved_range(b.buf[0]);
    bool same = a.same(b);
-   // both spellings may reach the Lexicon through one reused token buffer (symbolic choice)
-   static char8_t token[2]; const bool through_token = vp_flag();
+   // both spellings reach the Lexicon through one reused token buffer, as from a scanner: nothing may be remembered about the caller's storage
+   static char8_t token[2]; const bool through_token = true;      // (C03 h_intern_hist explores both presentations; here the reused buffer subsumes separate ones)
    auto present = [&](const Word<2>& x) { if (!through_token) return x.view(); token[0] = x.buf[0]; token[1] = x.buf[1]; return util::word_view(token, x.len); };
    const ipr::Identifier& ia = lx.get_identifier(present(a)); const ipr::Identifier& ib = lx.get_identifier(present(b));
    vp_assert((&ia == &ib) == same && ia.string().characters() == a.view() && ib.string().characters() == b.view(), 17);
